@@ -41,6 +41,11 @@ def strategy(draw, tier="quick"):
     depth = draw(st.integers(1, 9))
     widths = draw(st.lists(st.integers(1, 8), min_size=1, max_size=2))
     methods = {"read": [], "peek": [], "write": [1 << w for w in widths], "clear": []}
+    # in one case of three a second, independent caller of `read` or of `write` exists (io "read_b" / "write_b"): an
+    # exclusive method serves one of two simultaneous callers, and each element is popped / pushed once
+    second = draw(st.sampled_from([None, None, "read", "write"]))
+    if second:
+        methods[second + "_b"] = list(methods[second])
     hi = 60 if tier == "quick" else 200
     # optional push-only prefix (part of the history) so that deep and full stacks are common for every depth
     pre = [
@@ -48,7 +53,7 @@ def strategy(draw, tier="quick"):
         for _ in range(draw(st.integers(0, depth)))
     ]
     hist = pre + draw(capped_history(methods, 5, hi, caps={"clear": 2}, profiles=PROFILES))
-    return {"depth": depth, "widths": widths, "history": hist}
+    return {"depth": depth, "widths": widths, "second": second, "history": hist}
 
 
 def run_case(case) -> Result:
@@ -58,9 +63,12 @@ def run_case(case) -> Result:
     layout = [(f"f{i}", w) for i, w in enumerate(widths)]
     npo2 = depth & (depth - 1) != 0
     res = Result(labels=[f"depth{depth}"] + (["npo2"] if npo2 else []))
-    h = Harness(lambda: Stack(layout, depth))
-    names = ["read", "peek", "write", "clear"]
-    flags = dict(rw_together=False, fill=False, deep_top=False, rw_at_full=False, clear_write=False, clear_read=False)
+    second = case.get("second")
+    h = Harness(lambda: Stack(layout, depth), second_callers=(second,) if second else ())
+    names = ["read", "peek", "write", "clear"] + ([second + "_b"] if second else [])
+    if second:
+        res.labels.append("two_callers_of_" + second)
+    flags = dict(contended=False, rw_together=False, fill=False, deep_top=False, rw_at_full=False, clear_write=False, clear_read=False)
 
     async def tb(ctx):
         ios = h.ios(names)
@@ -71,25 +79,48 @@ def run_case(case) -> Result:
                 a = rec.get(n)
                 if a is None:
                     continue
-                reqs[n] = {f"f{i}": v for i, v in enumerate(a)} if n == "write" else {}
+                reqs[n] = {f"f{i}": v for i, v in enumerate(a)} if n.startswith("write") else {}
             results, _ = await step(ctx, ios, reqs)
             res.stats["cycles"] = res.stats.get("cycles", 0) + 1
             level = len(stack)
             nonempty, notfull = level > 0, level < depth
             top = stack[-1] if stack else None
             info = f"(level {level}/{depth})"
-            for n, ready in (("read", nonempty), ("peek", nonempty), ("write", notfull), ("clear", True)):
-                if check_accept(res, cyc, n, n in reqs, ready, results[n] is not None, info):
-                    return
+            groups = {"read": ["read"], "peek": ["peek"], "write": ["write"], "clear": ["clear"]}
+            if second:
+                groups[second].append(second + "_b")
+            accepted = {}
+            for meth, ready in (("read", nonempty), ("peek", nonempty), ("write", notfull), ("clear", True)):
+                callers = groups[meth]
+                if len(callers) == 1:
+                    if check_accept(res, cyc, meth, meth in reqs, ready, results[meth] is not None, info):
+                        return
+                    accepted[meth] = meth if results[meth] is not None else None
+                    continue
+                # two callers of one exclusive method: exactly one of the requesters is served when the method is ready
+                req = [c for c in callers if c in reqs]
+                acc = [c for c in callers if results[c] is not None]
+                if any(c not in reqs for c in acc):
+                    return res.fail(f"cycle {cyc}: {meth} ran for a caller that did not request it {info}")
+                want = min(1, len(req)) if ready else 0
+                if len(acc) != want:
+                    return res.fail(
+                        f"cycle {cyc}: callers {req} request {meth}, model ready={ready}: {len(acc)} calls accepted {acc}, "
+                        f"an exclusive method serves exactly {want} {info}"
+                    )
+                accepted[meth] = acc[0] if acc else None
+                if len(req) == 2:
+                    flags["contended"] = True
             for n in ("read", "peek"):
-                if results[n] is not None:
-                    if results[n] != top:
-                        return res.fail(f"cycle {cyc}: {n} returned {results[n]} expected {top} {info}")
+                a = accepted[n]
+                if a is not None:
+                    if results[a] != top:
+                        return res.fail(f"cycle {cyc}: {a} returned {results[a]} expected {top} {info}")
                     if level >= 2:
                         flags["deep_top"] = True
-            r_acc = results["read"] is not None
-            w_acc = results["write"] is not None
-            c_acc = results["clear"] is not None
+            r_acc = accepted["read"] is not None
+            w_acc = accepted["write"] is not None
+            c_acc = accepted["clear"] is not None
             if r_acc and w_acc:
                 flags["rw_together"] = True
             if "read" in reqs and "write" in reqs and level == depth:
@@ -102,7 +133,7 @@ def run_case(case) -> Result:
             if r_acc:
                 stack.pop()
             if w_acc:
-                stack.append(reqs["write"])
+                stack.append(reqs[accepted["write"]])
                 if len(stack) == depth and not c_acc:
                     flags["fill"] = True
             if c_acc:
